@@ -27,15 +27,24 @@ def exec_BW(t):
     try:
         x = mk(a, sx, nx, fx, overflow=o)
         before = codes_of(x)
+        NPOPS = {'and': np.bitwise_and, 'or': np.bitwise_or, 'xor': np.bitwise_xor}
+        sp = (nx + len(a) + a[0] + (b[0] if b else 0)) % 3       # content-determined spelling of the same operation
         if op == 'inv':
-            z = ~x
+            z = np.invert(x) if sp == 0 else ~x
         elif kind == 'ff':
             y = mk(b, sy, ny, fy)
-            z = OPS[op](x, y)
-        elif kind == 'fm':
-            z = OPS[op](x, b[0])
+            z = NPOPS[op](x, y) if sp == 0 else OPS[op](x, y)
         else:
-            z = OPS[op](b[0], x)
+            # the integer mask as a python integer or (when it fits one) as a NumPy integer scalar, which makes NumPy dispatch the operator
+            m = b[0]
+            if sp == 1 and -2 ** 63 <= m < 2 ** 63:
+                m = np.int64(m)
+            elif sp == 2 and 0 <= m < 2 ** 8:
+                m = np.uint8(m)
+            if kind == 'fm':
+                z = NPOPS[op](x, b[0]) if sp == 0 else OPS[op](x, m)
+            else:
+                z = NPOPS[op](b[0], x) if sp == 0 else OPS[op](m, x)
         if codes_of(x) != before:
             return ['MUTATED']
     except Exception as e:
